@@ -64,6 +64,9 @@ impl DhtHandler {
         let socket = Arc::new(socket);
         let table = Arc::new(Mutex::new(RoutingTable::new(this_node_id)));
 
+        #[cfg(btdht_verif)]
+        crate::verif::register_table(socket.local_addr(), table.clone());
+
         let mut aid_generator = AIDGenerator::new();
 
         // The refresh task to execute after the bootstrap
@@ -107,6 +110,9 @@ impl DhtHandler {
     }
 
     async fn run_once(&mut self) {
+        #[cfg(btdht_verif)]
+        crate::verif::publish_timer_len(self.socket.local_addr(), self.timer.len());
+
         select! {
             token = self.timer.next(), if !self.timer.is_empty() => {
                 // `unwrap` is OK because we checked the timer is non-empty, so it should never
@@ -410,6 +416,9 @@ impl DhtHandler {
     }
 
     async fn handle_bootstrap_success(&mut self) {
+        #[cfg(btdht_verif)]
+        crate::verif::count_bootstrap_completion(self.socket.local_addr());
+
         // Send notification that the bootstrap has completed.
         for (_, tx) in self.bootstrap_txs.drain() {
             tx.send(()).unwrap_or(())
